@@ -746,13 +746,15 @@ class Runner:
         self.drain_invariant()
         before = [(n, o, _fp(o)) for n, o in keep]
         cache = []
+        symptom = ["malformed"]          # how the failure showed: "exception:<Type>" / "malformed" / "wrong" (values)
 
         def classified():
             if not cache:
-                cache.append(classify() if classify else None)
+                cache.append(_symptom_ok(classify(), symptom[0]) if classify else None)
             return cache[0]
         r = ctx.call(fn)
         if ctx.failed(r):
+            symptom[0] = f"exception:{r.type}"
             self.drain_invariant(label, classified)
             ctx.violation(classified() or f"c04:exception:{r.type}@{r.where}", f"{label} raised {r!r}", **detail)
             return None
@@ -766,8 +768,11 @@ class Runner:
                     ctx.violation(f"c04:aliasing:{op}", f"{label}: out-of-place call returned its operand {n}")
         nv = len(ctx.violations)
         good = self.judge(got, exp, label, op, **detail)
-        if good is not True and len(ctx.violations) > nv and classified():
-            ctx.violations[-1]["key"] = classified()
+        if good is not True and len(ctx.violations) > nv:
+            if ctx.violations[-1]["key"].startswith("c04:wrong-"):
+                symptom[0] = "wrong"
+            if classified():
+                ctx.violations[-1]["key"] = classified()
         self.drain_invariant(label, classified)
         self.unchanged(before, label, op)
         if good is not True:
@@ -928,6 +933,14 @@ def unary_battery(R, A, u, tag):
 
 
 PAD = {"__pad": ["only"]}
+# a mechanism key is only granted when the failure also LOOKS like that mechanism (a well-formed result with wrong
+# numbers on an empty-scope factor, e.g. because an operand was corrupted earlier, is something else)
+SYMPTOMS = {"c04:divide-empty-scope": ("exception:TypeError",), "c04:maximize-empty-scope": ("exception:TypeError",),
+            "c04:maximize-nothing-torch": ("malformed", "exception:IndexError")}
+
+
+def _symptom_ok(key, symptom):
+    return key if key and symptom in SYMPTOMS.get(key, ()) else None
 
 
 def _empty_scope_classify(R, A, what, B=None):
@@ -1233,7 +1246,8 @@ def _step_call(R, cur, ocur, st, Fs, As):
         S = [v for v in st["S"] if v in ocur.states]
         meth = "marginalize" if op == "marg" else "maximize"
         fn = (lambda: getattr(cur, meth)(S)) if inplace else (lambda: getattr(cur, meth)(S, inplace=False))
-        return fn, o_eliminate(ocur, S, "sum" if op == "marg" else "max"), meth, []
+        return (fn, o_eliminate(ocur, S, "sum" if op == "marg" else "max"), meth, [],
+                (lambda: _max_classify(R, ocur, S)) if op == "max" else None)
     if op == "reduce":
         red = _named(R.states, [tuple(p) for p in st["R"] if p[0] in ocur.states])
         fn = (lambda: cur.reduce(red)) if inplace else (lambda: cur.reduce(red, inplace=False))
